@@ -179,7 +179,46 @@ def sweep(tier, seed=0):
                         break
                 if e2e_fail >= 4:
                     break
+        # boolean masks, NumPy and dask, the dask mask chunked independently of the array (full-shape masks and
+        # masks over the leading axis only)
+        if e2e_fail == 0:
+            x = np.arange(24).reshape(4, 6) * 3 + 1
+            xchunks = [((4,), (6,)), ((2, 2), (6,)), ((4,), (3, 3)), ((1, 3), (2, 4)), ((2, 2), (3, 3))]
+            mchunks = [((4,), (6,)), ((2, 2), (6,)), ((4,), (3, 3)), ((4,), (2, 2, 2)), ((3, 1), (1, 5))]
+            masks = [x % 2 == 0, x % 5 < 2, x > 100, x >= 0, (x // 3) % 4 == 1]
+            for xc in xchunks:
+                d = da.from_array(x, chunks=xc)
+                for m in masks:
+                    want = x[m]
+                    variants = [("numpy mask", m)] + [(f"dask mask chunks {mc}", da.from_array(m, chunks=mc)) for mc in mchunks]
+                    for label, mm in variants:
+                        cases += 1
+                        try:
+                            got = d[mm].compute()
+                            msg = None if np.array_equal(got, want) else f"x[mask] with a {label} gives {got.tolist()}, NumPy gives {want.tolist()}"
+                        except Exception as e:  # noqa
+                            msg = f"{type(e).__name__}: {e}"
+                        if msg:
+                            fails.append(rtc.Failure("Array.__getitem__", {"shape": (4, 6), "chunks": xc, "mask": label, "mask_values": m.astype(int).tolist()}, "ensures", "C20-equals-numpy", msg))
+                            e2e_fail += 1
+                            break
+                    if e2e_fail:
+                        break
+                    rowmask = m[:, 0]
+                    for label, mm in [("numpy row mask", rowmask), ("dask row mask", da.from_array(rowmask, chunks=(1, 3)))]:
+                        cases += 1
+                        try:
+                            got = d[mm].compute()
+                            msg = None if np.array_equal(got, x[rowmask]) else f"x[rowmask] with a {label} gives {got.tolist()}, NumPy gives {x[rowmask].tolist()}"
+                        except Exception as e:  # noqa
+                            msg = f"{type(e).__name__}: {e}"
+                        if msg:
+                            fails.append(rtc.Failure("Array.__getitem__", {"shape": (4, 6), "chunks": xc, "mask": label, "mask_values": rowmask.astype(int).tolist()}, "ensures", "C20-equals-numpy", msg))
+                            e2e_fail += 1
+                            break
+                if e2e_fail:
+                    break
     return {"function": "dask/array/slicing.py kernels + Array.__getitem__ (real code vs NumPy; bounded only)", "bounded": True,
-            "bound": {"1-D lengths": maxn, "chunkings": "all, plus zero-length chunks inserted", "slices": f"every start/stop/step in [-n-1, n+1] + None", "other": "ints, None, Ellipsis, int lists, boolean mask; 2-D 3x4 combinations", "time_budget_s": budget},
+            "bound": {"1-D lengths": maxn, "chunkings": "all, plus zero-length chunks inserted", "slices": f"every start/stop/step in [-n-1, n+1] + None", "other": "ints, None, Ellipsis, int lists, boolean mask; 2-D 3x4 combinations; 4x6 boolean masks (NumPy / dask with 5 independent chunkings, row masks) x 5 array chunkings", "time_budget_s": budget},
             "cases": cases, "distinct_nontrivial": cases, "failures_found": len(fails), "wall_s": round(time.time() - t0, 2),
             "samples": [{"native_case": {"n": 5, "chunks": [2, 3], "index": "slice(-10, None, -1)"}}], "failures": fails}
